@@ -24,6 +24,10 @@ package prometheus
 //@   loop#1 invariant len(keys) == len(values) && itr.storage != nil && itr.idx >= -1 && itr.idx <= setLen(itr.storage.equivalent)
 //@   loop#2 invariant len(keys) == len(values) && keysMap != nil && itr.storage != nil && itr.idx >= -1 && itr.idx <= setLen(itr.storage.equivalent)
 //@   loop#3 invariant len(keys) == len(values)
+// merging: a fresh one-value list is stored only for a sanitised key that is not in the table yet (otherwise the values already
+// collected for that key would be thrown away); for a key already present the stored list is the old one with one value appended
+//@   assert@call mapupdate#2 : !has(keysMap, $arg1)
+//@   assert@call mapupdate#1 : has(keysMap, $arg1) && len($arg2) == len(keysMap[$arg1]) + 1
 
 // metric type table: histograms (explicit and exponential) -> HISTOGRAM, monotonic sums -> COUNTER, other sums and gauges -> GAUGE
 //@ func (c *collector) metricType(m metricdata.Metrics) (r *dto.MetricType)
